@@ -4,6 +4,7 @@ import (
 	"context"
 	"fmt"
 	"math/rand"
+	"os"
 	"runtime"
 	"sort"
 	"strings"
@@ -49,6 +50,11 @@ type syncEnv struct {
 	stallOrphans bool
 	slowHash     Hash
 	slowUsed     bool
+	// set when the reader cancels a request for a block that had left the best chain (its 10 s
+	// orphan poll noticed the reorganisation): from then on the round knows its list is stale
+	orphanAbort       bool
+	orphanAbortHash   Hash
+	orphanAbortHeight int
 }
 
 func (e *syncEnv) log(kind string, h Hash, note string) {
@@ -100,6 +106,9 @@ func (e *syncEnv) RequestBlock(ctx context.Context, hash Hash, handler bitcoin_r
 		if !e.best[hash] {
 			e.violations = append(e.violations, fmt.Sprintf("non-best-chain-block-requested|height %d", ht))
 		}
+		if e.orphanAbort && hash != e.orphanAbortHash && ht > e.orphanAbortHeight && !(ht < len(e.bestNow) && e.bestNow[ht] == hash) {
+			e.violations = append(e.violations, fmt.Sprintf("abandoned-branch-block-requested-after-orphan-abort|block at height %d of the abandoned branch requested after the pending block at height %d was abandoned as orphaned (the round continued on its stale list)", ht, e.orphanAbortHeight))
+		}
 	}
 	e.log("request", hash, note)
 	seed := e.rng.Int63()
@@ -109,6 +118,16 @@ func (e *syncEnv) RequestBlock(ctx context.Context, hash Hash, handler bitcoin_r
 	}
 	node := NewFakeNode()
 	if beh == "never" {
+		// an orphaned request nobody serves: the only thing that cancels it (within the horizon
+		// of a case) is the reader abandoning it
+		node.OnCancel = func() {
+			e.mu.Lock()
+			if !e.orphanAbort {
+				e.orphanAbort, e.orphanAbortHash, e.orphanAbortHeight = true, hash, ht
+				e.log("orphan-abort", hash, "")
+			}
+			e.mu.Unlock()
+		}
 		return node, nil
 	}
 	e.wg.Add(1)
@@ -415,6 +434,23 @@ func c05Case(ctx context.Context, run *common.Run, obs *c05obs, idx int, orphan 
 		atomic.AddInt64(&obs.lostTrigger, 1)
 	} else if !idle {
 		if orphan {
+			env.mu.Lock()
+			for _, v := range env.violations {
+				if parts := strings.SplitN(v, "|", 2); parts[0] == "abandoned-branch-block-requested-after-orphan-abort" {
+					env.mu.Unlock()
+					viol("orphaned-block-abandoned-and-later-round-continues-on-new-best-chain", parts[0], parts[1])
+					return
+				}
+			}
+			env.mu.Unlock()
+			if os.Getenv("VERIF_C05_DEBUG") != "" { // debugging aid
+				env.mu.Lock()
+				fmt.Fprintf(os.Stderr, "C05 orphan case %d still running: %s\n", idx, desc)
+				for _, ev := range env.events {
+					fmt.Fprintf(os.Stderr, "  %d %s h=%d %s\n", ev.Seq, ev.Kind, env.height[ev.Hash], ev.Note)
+				}
+				env.mu.Unlock()
+			}
 			run.Inconclusive("orphan-round-still-running-after-40s (the code re-checks an orphaned request every 10 s)")
 			return
 		}
@@ -486,6 +522,9 @@ func c05Case(ctx context.Context, run *common.Run, obs *c05obs, idx int, orphan 
 		feature := tipStartFeature(L, start)
 		if parts[0] == "already-processed-block-requested" {
 			feature = concFeature(conc)
+		}
+		if parts[0] == "abandoned-branch-block-requested-after-orphan-abort" {
+			clause, feature = "orphaned-block-abandoned-and-later-round-continues-on-new-best-chain", ""
 		}
 		viol(clause, parts[0]+feature, d)
 		return
@@ -649,13 +688,13 @@ func RunC05(tier string, seed int64) int {
 	run.Rule = "real NodeManager (startup delay marked complete by hook, not dialling) + real header repository + real BlockManager.Run + scripted block source (deliver, slow, wrong block, drop mid-block, node-not-available < 20 polls) over chains of 1-30 blocks, start height in {0,1,mid,tip-1,tip,tip+1}, arbitrary already-processed sets, headers arriving mid-round with re-trigger, 1 (90%) or 2-3 concurrent downloads; orphan slice: a heavier fork overtakes while requests are pending. Oracle on the recorded request/processing log: never below start, never already processed, only best-chain blocks, parent->child order, first request position, at most once, and everything processed after the final trigger. distinct = scenario descriptors"
 	run.Assumptions = []string{"round boundaries are observed through the VerifBlockSyncState hook; a round that is still running 40 s after the last fault is a violation for non-orphan cases and inconclusive for orphan cases (the code re-checks orphaned requests on a 10 s timer)",
 		"hook-only: markStartupDelayComplete is invoked through the verif-tagged accessor instead of waiting for the startup timer"}
-	n, no, ns := 3000, 8, 6
+	n, no, ns := 3000, 20, 6
 	if tier == "thorough" {
 		n, no, ns = 40000, 200, 100
 	}
 	obs := &c05obs{}
 	_ = hdr.RefMerkleRoot
-	common.ParallelFor(n+no+ns, runtime.NumCPU()*2, func(i int) {
+	common.ParallelFor(n+no+ns, runtime.NumCPU()*3, func(i int) {
 		switch {
 		case i < no:
 			c05Case(ctx, run, obs, 1000000+i, true, false)
